@@ -91,6 +91,8 @@ class SubCase(object):
         self.world = World(self.ir, key, p_error=0.15, p_null_in_nonnull=0.05, p_crash=0.04 if self.crashes else 0.0,
                            served={self.ir.subscription: "resolver"})
         self.binding = Binding(self.world)
+        # String fields sometimes resolve to objects that print as the text and have a coarse equality
+        self.binding.loose_strings = True
         self.source = None
         self.async_sub = {}
         self.no_sub_resolver = set()
@@ -114,6 +116,16 @@ class SubCase(object):
 
             def subscribe(root, context, info, **kwargs):
                 return case.source.stream()
+            if len(fieldname) % 2:
+                # a subscription resolver may be any callable, e.g. a channel object that is falsy while it has
+                # no listener
+                class Channel(object):
+                    def __len__(self):
+                        return 0
+
+                    def __call__(self, root, context, info, /, **kwargs):      # arguments may be called `self`
+                        return case.source.stream()
+                return Channel()
             return subscribe
 
         self.schema, _ = S.build_code_schema(self.ir, resolver_for=self.binding.resolver_for,
